@@ -32,13 +32,14 @@ Extra(k) ==
     [] k = "Int" -> <<JF("1.5"), JG("2147483648"), JG("1e100"), JS("7"), JB(TRUE), JL(<<JI(1)>>), JI(2147483647), JI(0)>>
     [] k = "Float" -> <<JS("1.5"), JB(FALSE), JO(<<>>, <<>>), JI(3), JG("1e100")>>
     [] k = "Boolean" -> <<JS("true"), JI(1), JL(<<>>), JB(FALSE)>>
-    [] k = "Enum" -> <<JS("ZZ"), JS("HID"), JI(0), JB(TRUE), JO(<<"x">>, <<JI(1)>>), JS("GREEN")>>
+    [] k = "Enum" -> <<JS("ZZ"), JS("HID"), JI(0), JB(TRUE), JO(<<"x">>, <<JI(1)>>), JS("GREEN"),
+                       JS("red"), JS("Green"), JS("hid")>>   \* differ from a declared (valid / inaccessible) value only in letter case
     [] k = "Scalar" -> <<JI(5), JF("2.5"), JB(FALSE), JO(<<"x">>, <<JI(1)>>), JL(<<JS("q"), JNull>>)>>
 Menu(k) == <<JAbsent, JNull, Good(k)>> \o Extra(k)
 \* seeds that are also wrapped beyond depth 1 when DeepAll = FALSE: the null / right / wrong-kind (number) String in both
 \* nullabilities, the enum with an invalid / inaccessible value (rendered null by both walks), the Int fraction
-DeepSeed(k, n, m) == \/ k = "String" /\ m \in 2..4
-                     \/ k = "Enum" /\ m \in 4..5
+DeepSeed(k, n, m) == \/ k = "String" /\ m \in 2..4 /\ (n => m # 3)
+                     \/ k = "Enum" /\ m \in 4..5 /\ (~n => m = 5)
                      \/ k = "Int" /\ ~n /\ m = 4
 
 RECURSIVE OkVal(_)
@@ -54,10 +55,12 @@ OkVal(N) ==
 ObjT(n, fs) == ObjectNode(n, "X", <<"X">>, fs)
 AbsT(n, fs) == ObjectNode(n, "I", <<"A", "AB">>, fs)   \* one type name is a prefix of the other on purpose
 TypenameF == F("__typename", Str(FALSE))
+\* abstract type with exactly ONE possible type that is not the type itself (single-implementer interface / single-member union)
+Abs1T(n, fs) == ObjectNode(n, "I1", <<"A">>, fs)
 OnA == <<"A">>
 OnB == <<"AB">>
 
-NWraps == 28
+NWraps == 36
 WrapT(w, n, T0) ==
   CASE w \in {1, 7, 8, 9, 10} -> ObjT(n, <<F("f", T0)>>)
     [] w = 2 -> ObjT(n, <<F("e", Str(TRUE)), F("f", T0)>>)
@@ -70,6 +73,11 @@ WrapT(w, n, T0) ==
     [] w \in 20..24 -> AbsT(n, <<Fld("f", "f", OnA, <<>>, T0), Fld("g", "g", OnB, <<>>, Str(TRUE))>>)
     \* the same response key on both members, aliased upstream by the planner (abstract_selection_field_alias.go)
     [] w \in 27..28 -> AbsT(n, <<Fld("f", "m_A_f", OnA, <<>>, T0), Fld("f", "m_AB_f", OnB, <<>>, Str(TRUE))>>)
+    [] w \in 29..32 -> Abs1T(n, <<Fld("f", "f", OnA, <<>>, T0), F("g", Str(TRUE))>>)
+    \* multi-offender sequences: whatever T0 holds is absorbed by the nullable c (33, 34: object; 35, 36: list, possibly by a
+    \* nullable item) BEFORE the walk reaches the later sibling t, which is selected through a type condition
+    [] w \in 33..34 -> AbsT(n, <<F("c", ObjT(TRUE, <<F("f", T0)>>)), Fld("t", "t", OnA, <<>>, Str(FALSE))>>)
+    [] w \in 35..36 -> AbsT(n, <<F("c", ArrayNode(TRUE, T0)), Fld("t", "t", OnA, <<>>, Str(FALSE))>>)
     [] w \in 25..26 -> AbsT(n, <<F("o", ObjT(FALSE, <<Fld("f", "f", <<>>, <<[d |-> 1, names |-> OnA]>>, T0),
                                                        Fld("g", "g", <<>>, <<[d |-> 1, names |-> OnB]>>, Str(TRUE))>>))>>)
 WrapJ(w, T0, j0) ==
@@ -101,6 +109,14 @@ WrapJ(w, T0, j0) ==
     [] w = 26 -> JO(<<"__typename", "o">>, <<JS("AB"), JO(<<"f", "g">>, <<j0, JS("s")>>)>>)
     [] w = 27 -> JO(<<"__typename", "m_A_f", "m_AB_f">>, <<JS("A"), j0, JS("s")>>)
     [] w = 28 -> JO(<<"__typename", "m_A_f", "m_AB_f">>, <<JS("AB"), j0, JS("s")>>)
+    [] w = 29 -> JO(<<"__typename", "f", "g">>, <<JS("A"), j0, JS("s")>>)
+    [] w = 30 -> JO(<<"f", "g">>, <<OkVal(T0), JS("s")>>)                          \* missing __typename
+    [] w = 31 -> JO(<<"__typename", "f", "g">>, <<JB(TRUE), OkVal(T0), JS("s")>>)   \* __typename of the wrong kind
+    [] w = 32 -> JO(<<"__typename", "f", "g">>, <<JS("I1"), OkVal(T0), JS("s")>>)   \* the abstract type's own name: not a possible type
+    [] w = 33 -> JO(<<"__typename", "c", "t">>, <<JS("A"), JO(<<"f">>, <<j0>>), JNull>>)      \* second offender: null in String!
+    [] w = 34 -> JO(<<"__typename", "c", "t">>, <<JS("A"), JO(<<"f">>, <<j0>>), JS("s")>>)    \* ... or well-typed: must be rendered
+    [] w = 35 -> JO(<<"__typename", "c", "t">>, <<JS("A"), JL(<<j0, OkVal(T0)>>), JNull>>)
+    [] w = 36 -> JO(<<"__typename", "c", "t">>, <<JS("A"), JL(<<OkVal(T0), j0>>), JI(5)>>)    \* second offender ill-typed
 
 Init == \E k \in Range(Kinds) \cap SeedKinds, n \in BOOLEAN :
           \E m \in 1..Len(Menu(k)) :
@@ -111,7 +127,7 @@ Init == \E k \in Range(Kinds) \cap SeedKinds, n \in BOOLEAN :
 
 Wrap(w, n) == /\ d < MaxDepth
               /\ (d = 0 \/ DeepAll \/ deep)
-              /\ (w \in {12, 13} => j.t # "x")
+              /\ (w \in {12, 13, 35, 36} => j.t # "x")
               /\ T' = WrapT(w, n, T)
               /\ j' = WrapJ(w, T, j)
               /\ d' = d + 1
